@@ -279,6 +279,9 @@ func runChunk(exe string, meta Meta, id, tier string, seed int64, c chunk, tmpRo
 	}
 	cmd.SysProcAttr = &syscall.SysProcAttr{Setpgid: true}
 	timeout := 1200 * time.Second
+	if meta.WorkerTimeoutSec > 0 {
+		timeout = time.Duration(meta.WorkerTimeoutSec) * time.Second
+	}
 	if s := os.Getenv("VERIF_WORKER_TIMEOUT"); s != "" {
 		if v, err := strconv.Atoi(s); err == nil {
 			timeout = time.Duration(v) * time.Second
@@ -359,7 +362,13 @@ func runChunk(exe string, meta Meta, id, tier string, seed int64, c chunk, tmpRo
 	}
 	// crash / timeout attribution
 	if lastBegin >= 0 && ended[lastBegin] == nil {
-		if timedOut {
+		if timedOut && meta.HangKey != "" {
+			agg.violations = append(agg.violations, foundViolation{lastBegin, Violation{
+				Key:    meta.HangKey,
+				Msg:    fmt.Sprintf("the worker process made no progress inside this case for %s and had to be killed (goroutine dump in the worker output)", timeout),
+				Detail: J{"worker_output_tail": lastLines(outTail, 40)},
+			}})
+		} else if timedOut {
 			agg.inconclusive = append(agg.inconclusive, fmt.Sprintf("case %d: worker watchdog fired after %s", lastBegin, timeout))
 		} else {
 			agg.crashes++
